@@ -1090,10 +1090,24 @@ def class_scenarios(rng, count):
                 if choice in ("define", "override") or not has_super:
                     b.ret(tup(lit(tag), b.v("a")) if np else lit(tag))
                 elif choice == "super-call":
-                    args = [b.v("a")] if (np and rng.random() < 0.7) else ([] if rng.random() < 0.8 else [lit(0)])
-                    b.ret(tup(lit(tag), b.superinv(mname, *args)))
+                    takes_a = np and rng.random() < 0.7
+                    extra = [] if rng.random() < 0.8 else [lit(0)]
+                    mk = lambda: b.superinv(mname, *([b.v("a")] if takes_a else extra))
+                    # ... directly, or from a lambda / a nested function of the method: `super` still means this class's superclass
+                    # and the receiver is still the method's `self`
+                    through = rng.choice(["direct", "direct", "lambda", "nested-fn"])
+                    if through == "direct":
+                        b.ret(tup(lit(tag), mk()))
+                    elif through == "lambda":
+                        b.ret(tup(lit(tag), call(b.lam([], mk))))
+                    else:
+                        b.fn("inner", []); b.ret(call(b.lam([], mk))); b.end()
+                        b.ret(tup(lit(tag), call(b.v("inner"))))
                 else:
-                    b.var("sm", b.superget(mname))
+                    if rng.random() < 0.3:
+                        b.var("sm", call(b.lam([], lambda: b.superget(mname))))      # the bound super method taken inside a lambda
+                    else:
+                        b.var("sm", b.superget(mname))
                     b.ret(tup(lit(tag), call(b.v("sm"))))
                 b.end()
                 defined.setdefault(mname, []).append(lvl)
@@ -1114,7 +1128,9 @@ def class_scenarios(rng, count):
                     # a static method reaching the superclass's static through super: the receiver stays the class it was called on
                     how = rng.choice(["call", "value"])
                     sup_np = defined["s"][-1][1]
-                    if how == "call":
+                    if how == "call" and rng.random() < 0.3:
+                        b.ret(tup(lit("static@" + cname), b.Self(), call(b.lam([], lambda: b.superinv("s", *([lit("sx")] if sup_np else []))))))
+                    elif how == "call":
                         b.ret(tup(lit("static@" + cname), b.Self(), b.superinv("s", *([lit("sx")] if sup_np else []))))
                     else:
                         b.var("ss", b.superget("s")); b.ret(tup(lit("static@" + cname), call(b.v("ss"), *([lit("sx")] if sup_np else []))))
